@@ -23,7 +23,7 @@ import langtrace
 import nv
 
 I, L = g.ident, g.lit
-TRACK = ["xx", "yy", "zz", "dd", "vv", "rr", "ff", "gg", "si", "sj", "st", "su"]
+TRACK = ["xx", "yy", "zz", "dd", "vv", "rr", "ff", "gg", "si", "sj", "st", "su", "mm", "kk"]
 
 
 def T(x, *ix):
@@ -86,6 +86,13 @@ def vocabulary():
     add("update-expr", g.asg(T("yy"), g.upd(I("xx"), L(0), L(9))), ["yy"])
     add("every", g.asg(T("xx", g.ix_slice(L(0), L(1))), L(3), every=True), ["xx"])
     add("every-inner", g.asg(T("xx", L(1), g.ix_slice(None, None)), L(4), every=True), ["xx"])
+    # every x[..] op= v works on a copy that is stored back only on success
+    add("decl-mixed", g.decl("mm", g.lst([L(1), L(2), L("a"), L(4)])), ["mm"])
+    add("every-op-ok", g.opasg(T("mm", g.ix_slice(L(0), L(2))), "+", L(1), every=True), ["mm"])
+    add("every-op-fails", g.try_(g.opasg(T("mm", g.ix_slice(None, None)), "+", L(1), every=True), "ee", L(0)), ["mm"])
+    add("every-op-inner", g.opasg(T("xx", L(0), g.ix_slice(None, None)), "+", L(1), every=True), ["xx"])
+    add("def-reading-op", g.decl("kk", g.lam([g.param("aa"), g.param("bb")], g.binop("+", g.binop("+", I("aa"), I("bb")), g.call(I("len"), [I("mm")])))), ["kk"])
+    add("every-op-closure", g.opasg(T("mm", g.ix_slice(L(0), L(2))), "kk", L(1), every=True), ["mm"])
     add("def-mutator", g.decl("ff", g.lam([g.param("aa")], g.seq([g.asg(T("aa", L(0)), L(8)),
                                                                    g.opasg(T("aa"), "append", L(6)), I("aa")]))), ["ff"])
     add("call-mutator", g.decl("rr", g.call(I("ff"), [I("xx")])), ["rr"])
@@ -200,6 +207,12 @@ def rand_history(rng, n):
             p = rand_path(rng, 1) if rng.random() < 0.4 else []
             stmts.append(g.asg(T(x, *(p + [g.ix_slice(rng.choice([None, L(0), L(1)]), rng.choice([None, L(1), L(2), L(-1)]))])),
                                rng.choice([L(3), I(var())]), every=True))
+        elif r < 0.83:
+            # every x[..][a:b] op= v: all addressed slots or none
+            p = rand_path(rng, 1) if rng.random() < 0.4 else []
+            st = g.opasg(T(x, *(p + [g.ix_slice(rng.choice([None, L(0), L(1)]), rng.choice([None, L(1), L(2), L(-1)]))])),
+                         rng.choice(["+", "append", "++"]), rng.choice([L(1), g.lst([L(5)]), I(var())]), every=True)
+            stmts.append(g.try_(st, "ce", L(0)) if rng.random() < 0.5 else st)
         elif r < 0.86:
             if not funcs or rng.random() < 0.3:
                 f = "fn%d" % len(funcs)
